@@ -23,7 +23,7 @@ from .lib import iters
 from .lib.effects import Effects, guards_of
 from .lib.mir import op_place, op_const, const_value
 from .lib.paths import strip, _listed_from
-from .lib.value import vstr, walk, canon, _phi, is_transparent, value_call_name, TRANSPARENT, UNWRAPPING, OK_PRESERVING, _TRX
+from .lib.value import Slicer, vstr, walk, canon, _phi, is_transparent, value_call_name, TRANSPARENT, UNWRAPPING, OK_PRESERVING, _TRX
 
 OPTION = 'std::option::Option'
 RESULT = 'std::result::Result'
@@ -944,3 +944,122 @@ def reader_behaviour(prog, sl):
 
 
 _SPEC_SUFFIXES = ('.append', '.default', '.delim', '.override', '.prepend')
+
+
+# ---------------------------------------------------------------------------------------------------------------------
+# writer side: a Vec that is *grown* before it is iterated (`let mut t = vec![a, b]; t.extend(xs.iter().map(f)); for x in t`)
+# ---------------------------------------------------------------------------------------------------------------------
+class GrowSlicer(Slicer):
+    """Slicer whose value of a `Vec` local includes what is appended to it through `&mut local` before it is read.
+
+    lib/value.py describes a local by its whole definition (plus field updates / string pushes); `Vec::push` /
+    `Extend::extend` through `&mut v` are not reflected, so a table built as `vec![..]` + `extend(..)` would be iterated
+    as the literal alone and the appended rows silently dropped.  Here such a local is the iterator-algebra value
+        chain(<initial value>, <extended iterator> | once(<pushed element>), ...)
+    which lib/iters.alts decomposes row by row (Effects.expand then unrolls a loop over it exactly like a loop over a
+    literal table or a once/chain/map pipeline).  The model is only used when it is exact for every reader of the local:
+      * every growth call is executed exactly once (not inside a loop), the growth calls are totally ordered by dominance,
+      * every other (non-drop) use of the local is dominated by all growth calls (so it sees the fully grown vector),
+      * the `&mut` borrow handed to a growth call is used for nothing else, and the local is not mutably borrowed otherwise.
+    Otherwise the local becomes the opaque ('call', 'vec-mutated', (initial,)) — never the initial literal alone."""
+
+    GROW = {'std::iter::Extend::extend': 'iter', 'std::vec::Vec::<T, A>::push': 'one', 'std::vec::Vec::<T, A>::append': 'iter',
+            'std::vec::Vec::<T, A>::extend_from_slice': 'iter'}
+    FRESH = ('::new', '::with_capacity', '::default')
+
+    def _mut_roots(self, fn):
+        """{ref local: (vec local, (locals of the borrow chain))} for `r = &mut v`, `r2 = &mut *r`, `r3 = move r2`"""
+        key = ('mutroots', fn.path)
+        if key in self._cache:
+            return self._cache[key]
+        step = {}
+        for b in fn.blocks:
+            for st in b['s']:
+                if st[0] != '=' or len(st[1]) != 1:
+                    continue
+                rv = st[2]
+                if rv['r'] == 'ref' and rv.get('mut'):
+                    p = rv['p']
+                    if len(p) == 1:
+                        step.setdefault(st[1][0], []).append(('direct', p[0]))
+                    elif len(p) == 2 and p[1] == '*':
+                        step.setdefault(st[1][0], []).append(('via', p[0]))
+                    else:
+                        step.setdefault(st[1][0], []).append(('other', None))
+                elif rv['r'] == 'use':
+                    sp = op_place(rv['o'])
+                    if sp is not None and len(sp) == 1:
+                        step.setdefault(st[1][0], []).append(('via', sp[0]))
+        out = {}
+        for l in step:
+            chain, cur = [], l
+            while cur is not None and len(chain) < 6:
+                s = step.get(cur)
+                if not s or len(s) != 1 or len(fn.whole_defs(cur)) != 1 or s[0][0] == 'other':
+                    cur = None
+                    break
+                chain.append(cur)
+                if s[0][0] == 'direct':
+                    out[l] = (s[0][1], tuple(chain))
+                    break
+                cur = s[0][1]
+        self._cache[key] = out
+        return out
+
+    def _growth(self, fn, local):
+        """None (the local is never grown) | 'irregular' | [(Call, 'iter' | 'one')...] in execution order"""
+        roots = self._mut_roots(fn)
+        reach = fn.reachable(0)
+        grow, chain_locals = [], set()
+        for c in fn.calls:
+            if c.indirect or c.bb not in reach or len(c.args) != 2:
+                continue
+            how = self.GROW.get(c.decl) or self.GROW.get(c.name)
+            pl = op_place(c.args[0])
+            if how is None or pl is None or len(pl) != 1 or pl[0] not in roots or roots[pl[0]][0] != local:
+                continue
+            grow.append((c, how))
+            chain_locals |= set(roots[pl[0]][1])
+        if not grow:
+            return None
+        if len(fn.whole_defs(local)) != 1 or any(fn.in_loop(c.bb) for c, _ in grow):
+            return 'irregular'
+        dom = fn.dominators()
+        grow.sort(key=lambda x: len(dom.get(x[0].bb, ())))
+        for (a, _), (b, _) in zip(grow, grow[1:]):
+            if a.bb == b.bb or not fn.dominates(a.bb, b.bb):
+                return 'irregular'
+        # each borrow of a growth call is used once (by the next borrow of the chain or by the call)
+        for r in chain_locals:
+            if len([u for u in fn.uses_of(r) if u[0] in reach and u[1] != 'drop']) != 1:
+                return 'irregular'
+        for bi, kind, si, how, pl in fn.uses_of(local):
+            if bi not in reach or kind == 'drop':
+                continue
+            if how == 'refmut':
+                dest = fn.blocks[bi]['s'][si][1] if kind == 'stmt' else None
+                if not (dest and len(dest) == 1 and dest[0] in chain_locals):
+                    return 'irregular'
+                continue
+            if not all(c.bb != bi and fn.dominates(c.bb, bi) for c, _ in grow):
+                return 'irregular'
+        return grow
+
+    def _with_updates(self, fn, local, v, seen, d):
+        v = super()._with_updates(fn, local, v, seen, d)
+        if not (fn.local_ty(local) or '').startswith('std::vec::Vec<'):
+            return v
+        g = self._growth(fn, local)
+        if g is None:
+            return v
+        if g == 'irregular':
+            return ('call', 'vec-mutated', (v,), None)
+        fresh = v[0] == 'call' and not v[2] and v[1].startswith('std::vec::Vec') and v[1].endswith(self.FRESH)
+        parts = [] if fresh else [v]
+        for c, how in g:
+            x = self.operand(fn, c.args[1], seen, d)
+            parts.append(x if how == 'iter' else ('call', 'std::iter::once', (x,), None))
+        out = parts[0]
+        for p in parts[1:]:
+            out = ('call', iters.IT + 'chain', (out, p), None)
+        return out
